@@ -9,9 +9,9 @@ run_one() {
   p=$1; id=$(basename "$p" .diff); c="$WORK/$id"
   mkdir -p "$c"; (cd /repo && git ls-files -z | xargs -0 cp --parents -t "$c") 2>/dev/null
   if ! (cd "$c" && git apply "$p" 2>/dev/null); then echo "$id SKIP patch does not apply"; rm -rf "$c"; return; fi
-  out=$("$VERIF/bin/lungocheck" -prop ALL -repo "$c" -out "$VERIF" 2>&1 | grep -E "^RULE|UNANALYSABLE" | grep -v "NUM-3\|SEM-5\|bsonkit.put")
+  out=$("${LUNGOCHECK:-$VERIF/bin/lungocheck}" -prop ALL -repo "$c" -out "$VERIF" 2>&1 | grep -E "^RULE|UNANALYSABLE" | grep -v "NUM-3\|SEM-5\|bsonkit.put")
   if [ -z "$out" ]; then echo "$id silent"; else echo "$id ALARM"; echo "$out" | cut -c1-300 | sed 's/^/    /'; fi
   rm -rf "$c"
 }
 export -f run_one; export WORK VERIF
-ls "$VERIF"/selftest/silent/*.diff | xargs -P 4 -I{} bash -c 'run_one {}'
+ls "$VERIF"/selftest/silent/*.diff | xargs -P ${JOBS:-4} -I{} bash -c 'run_one {}'
